@@ -241,6 +241,20 @@ func TestGovcBoundedCodecValues(t *testing.T) {
 				continue
 			}
 			rt("ServerCountMsg", ServerCountMsg{SubscriptionID: s, Count: uint64(n), Approximate: nil}, deref(cs["servercountmsgs"]))
+			for _, ap := range []bool{false, true} {
+				ap := ap
+				rt("ServerCountMsg", ServerCountMsg{SubscriptionID: s, Count: uint64(n), Approximate: &ap}, deref(cs["servercountmsgs"]))
+			}
+		}
+		// OK / CLOSED: a well-formed value keeps a machine-readable prefix in MsgPrefix (an empty MsgPrefix goes
+		// with a text that does not itself begin with one of the known prefixes)
+		for _, prefix := range []string{"", MachineReadablePrefixPoW, MachineReadablePrefixDuplicate, MachineReadablePrefixBlocked, MachineReadablePrefixRateLimited, MachineReadablePrefixInvalid, MachineReadablePrefixError} {
+			for j, id := range hex64 {
+				rt("ServerOKMsg", ServerOKMsg{EventID: id, Accepted: j%2 == 0, Msg: s, MsgPrefix: prefix}, deref(cs["serverokmsgs"]))
+			}
+			for _, sub := range strs[:5] {
+				rt("ServerClosedMsg", ServerClosedMsg{SubscriptionID: sub, Msg: s, MsgPrefix: prefix}, deref(cs["serverclosedmsgs"]))
+			}
 		}
 	}
 	fmt.Printf("GOVC-BOUNDED evaluations=%d\n", evals)
